@@ -107,4 +107,319 @@ def run_seek(mf, tier):
     return res
 
 
-TARGETS = [{"name": "c15_o2_q_execute_index_seek", "crate": "nervusdb-query", "run": run_seek}]
+def run_label_filter(nlabels):
+    """C15-O4: the planner keeps a HasLabel filter for EVERY label of the pattern's first node above NodeScan / IndexSeek.
+
+    Index entries are maintained at commit from property changes only; a node that loses its label keeps its index entry, and a
+    NodeScan(label) / IndexSeek(label, ..) restricts by the FIRST label only through the index or the label scan. What keeps the
+    rows equal with and without the index is the filter `apply_label_filters_for_alias(plan, alias, src_labels)` that
+    `compile_pattern_chain` puts above the start plan in each of its four arms. The real MIR of compile_pattern_chain is executed
+    from the statement that clones the element's labels to the join after the four arms; labels are symbolic ids, every callee is
+    a recorder. On every path the label list handed to the filter builder must be the element's complete label list."""
+    def run(mf, tier):
+        import re
+        from ..symex import PyVec, TRUE, FALSE
+        from ..bytesmodel import buf_of
+        fn = mf.find(r"^fn compile_pattern_chain\(")
+        loc = {}
+        for l in fn.lines:
+            m = re.match(r"^\s*debug (\w+) => (_\d+);$", l)
+            if m and m.group(1) not in loc:
+                loc[m.group(1)] = m.group(2)
+        for need in ("src_labels", "src_alias", "src_node_el", "plan"):
+            if need not in loc:
+                raise Unsupported("compile_pattern_chain has no local named %s" % need)
+        entry, stops = None, {}
+        for bb, stmts in fn.blocks.items():
+            if bb in fn.cleanup or not stmts:
+                continue
+            t = stmts[-1]
+            if re.match(r"^%s = <Vec<std::string::String> as Clone>::clone\(" % re.escape(loc["src_labels"]), t):
+                entry = bb
+        if entry is None:
+            raise Unsupported("cannot locate the statement that computes src_labels")
+        # the join after the four arms: the first block that assigns `i` (debug i) — stop where the hop loop is set up
+        hop = loc.get("i")
+        for bb, stmts in fn.blocks.items():
+            if bb in fn.cleanup:
+                continue
+            if any(re.match(r"^%s = const 1_usize;$" % re.escape(hop or "_none"), s) for s in stmts):
+                stops[bb] = "start plan built"
+        if not stops:
+            raise Unsupported("cannot locate the join after the start-plan arms")
+        labels = [z3.BitVec("label%d" % i, 32) for i in range(nlabels)]
+        alias = z3.BitVec("alias", 32)
+
+        def ident(ex, st, a, dst, callee):
+            v = a[0]
+            if isinstance(v, Ref):
+                v = deref_val(ex, st, v)
+            return [(v, [], None)]
+
+        def keepref(ex, st, a, dst, callee):
+            return [(a[0], [], None)]
+
+        def m_first(ex, st, a, dst, callee):
+            v = buf_of(ex, st, a[0])
+            if not v.items:
+                return [(Enum("None"), [], "first=None")]
+            return [(Enum("Some", [Ref(a[0].root, list(a[0].projs) + [("elem", 0)])]), [], "first=Some")]
+
+        def m_get_range(ex, st, a, dst, callee):
+            n = len(buf_of(ex, st, a[0]).items)
+            r = a[1]
+            if not isinstance(r, Struct):
+                return None
+            from ..bytesmodel import conc
+            if r.name == "RangeFrom":
+                s, e = conc(r.fields[0]), n
+            elif r.name == "Range":
+                s, e = conc(r.fields[0]), conc(r.fields[1])
+            elif r.name == "RangeTo":
+                s, e = 0, conc(r.fields[0])
+            else:
+                return None
+            if s > e or e > n:
+                return [(Enum("None"), [], None)]
+            return [(Enum("Some", [Ref(a[0].root, list(a[0].projs) + [("range", s, e)])]), [], None)]
+
+        def m_cloned(ex, st, a, dst, callee):
+            v = a[0]
+            if isinstance(v, Enum) and v.variant == "Some":
+                return [(Enum("Some", [deref_val(ex, st, v.fields[0])]), [], None)]
+            return [(v, [], None)]
+
+        def m_opaque(name):
+            def f(ex, st, a, dst, callee):
+                return [(Opaque(name), [], None)]
+            return f
+
+        def m_binding(ex, st, a, dst, callee):
+            st.env["$kind_node"] = Enum("Node")
+            st.env["$kind_rel"] = Enum("Relationship")
+            return [(Enum("None"), [], "source unbound"), (Enum("Some", [Ref("$kind_node")]), [], "source bound as node"),
+                    (Enum("Some", [Ref("$kind_rel")]), [], "source bound as relationship")]
+
+        def m_forkbool(tag):
+            def f(ex, st, a, dst, callee):
+                return [(TRUE, [], tag + "=true"), (FALSE, [], tag + "=false")]
+            return f
+
+        def m_unit(ex, st, a, dst, callee):
+            return [(Tup([]), [], None)]
+
+        def m_preds_get(ex, st, a, dst, callee):
+            st.env["$inner"] = Opaque("predicates-of-alias")
+            return [(Enum("None"), [], "no pushed-down predicate"), (Enum("Some", [Ref("$inner")]), [], "pushed-down predicates")]
+
+        def m_iter(ex, st, a, dst, callee):
+            return [(Struct("btree-iter", {}), [], None)]
+
+        def m_iter_next(ex, st, a, dst, callee):
+            st.env["$field"], st.env["$vexpr"] = Opaque("field"), Opaque("value-expr")
+            return [(Enum("None"), [], "predicate map empty"), (Enum("Some", [Tup([Ref("$field"), Ref("$vexpr")])]), [], "equality predicate")]
+
+        def m_filters(ex, st, a, dst, callee):
+            return [(Struct("PropertyFiltered", {0: a[0]}), [], None)]
+
+        def m_label_filters(ex, st, a, dst, callee):
+            got = list(buf_of(ex, st, a[2]).items) if isinstance(a[2], Ref) else None
+            st.env.setdefault("$label_calls", [])
+            st.env["$label_calls"] = st.env["$label_calls"] + [(a[1], got)]
+            return [(Struct("LabelFiltered", {0: a[0]}), [], None)]
+
+        models = [(r"^<Vec<std::string::String> as Clone>::clone$", ident),
+                  (r"^<std::string::String as Clone>::clone$", ident),
+                  (r"^<std::option::Option<std::string::String> as Clone>::clone$", ident),
+                  (r"^<ast::Expression as Clone>::clone$", ident),
+                  (r"^<BTreeMap<std::string::String, BTreeMap<std::string::String, ast::Expression>> as Clone>::clone$", m_opaque("local-predicates")),
+                  (r"slice::<impl \[std::string::String\]>::first$", m_first),
+                  (r"slice::<impl \[std::string::String\]>::get::<", m_get_range),
+                  (r"Option::<&std::string::String>::cloned$", m_cloned),
+                  (r"^BTreeMap::<std::string::String, BindingKind>::get::<", m_binding),
+                  (r"^first_relationship_is_bound$", m_forkbool("first relationship bound")),
+                  (r"^extend_predicates_from_properties$", m_unit),
+                  (r"^BTreeMap::<std::string::String, BTreeMap<std::string::String, ast::Expression>>::get::<", m_preds_get),
+                  (r"^BTreeMap::<std::string::String, ast::Expression>::iter$", m_iter),
+                  (r"^<std::collections::btree_map::Iter<'_, std::string::String, ast::Expression> as Iterator>::next$", m_iter_next),
+                  (r"^apply_filters_for_alias$", m_filters),
+                  (r"^apply_label_filters_for_alias$", m_label_filters),
+                  (r"Box::<.*>::new$", keepref)] + GENERIC_MODELS
+        failed, n, queries, stime, sample = [], 0, 0, 0.0, []
+        for has_input in (False, True):
+            st = State()
+            st.env["$el"] = Struct("NodePattern", {1: PyVec(list(labels)), 2: Opaque("inline-properties")})
+            st.env[loc["src_node_el"]] = Ref("$el")
+            st.env[loc["src_alias"]] = alias
+            st.env["_1"] = Enum("Some", [Opaque("existing-plan")]) if has_input else Enum("None")
+            st.env["_2"], st.env["_3"], st.env["_5"] = Opaque("pattern"), Opaque("predicates"), Opaque("known-bindings")
+            st.env["_4"] = z3.BitVec("optional", 1)
+            ex = Exec(fn, models, bound=2, variant_index=_binding_kind_index(), max_paths=2000, stop_at=stops)
+            paths = ex.run(entry, st)
+            queries += ex.queries
+            stime += ex.solver_time
+            for p in paths:
+                if p.kind == "panic":
+                    failed.append("start-plan construction can panic on [%s]" % p.signature())
+                    continue
+                if p.kind != "stop":
+                    raise Unsupported("a path leaves the start-plan arms as %s on [%s]" % (p.kind, p.signature()))
+                n += 1
+                calls = p.st.env.get("$label_calls", [])
+                plan = p.st.env.get(loc["plan"])
+                if len(sample) < 8:
+                    sample.append(p.signature() + " => " + repr(plan)[:80])
+                if not (isinstance(plan, Struct) and plan.name == "LabelFiltered"):
+                    failed.append("the start plan is not wrapped by the label filter on [%s]" % p.signature())
+                    continue
+                if len(calls) != 1:
+                    failed.append("%d label-filter calls on [%s]" % (len(calls), p.signature()))
+                    continue
+                who, got = calls[0]
+                if got is None:
+                    raise Unsupported("the label list handed to the filter builder is not a view of a modelled vector")
+                if got is None or len(got) != nlabels or not all(ex.entails(p.pc, g == l) for g, l in zip(got, labels)):
+                    failed.append("the label filter above the start plan is built from %d of the node's %d labels (%s input plan): a node "
+                                  "that lost a label is still matched through a stale index / label-scan answer"
+                                  % (len(got) if got is not None else -1, nlabels, "with" if has_input else "without"))
+                w = who if not isinstance(who, Ref) else deref_val(ex, p.st, who)
+                if z3.is_expr(w) and not ex.entails(p.pc, w == alias):
+                    failed.append("the label filter is built for another variable than the pattern's first node")
+        res = {"paths": n, "queries": queries, "solver_time_s": round(stime, 3), "sample": sample, "functions": [fn.header[:110]]}
+        if failed:
+            res.update({"status": "fail", "failed": sorted(set(failed)), "reason": "; ".join(sorted(set(failed)))[:400]})
+        else:
+            res["status"] = "pass"
+        return res
+    return run
+
+
+def run_label_filter_body(nlabels):
+    """C15-O5: apply_label_filters_for_alias(plan, alias, labels) — the real body: the result is Filter{input: plan, predicate} whose
+    predicate is an And-chain holding, for EVERY label handed in, `alias IS NULL OR alias:label`; no labels -> the plan unchanged."""
+    def run(mf, tier):
+        from ..symex import PyVec
+        from ..bytesmodel import ByteIt, m_byteit_next
+        fn = mf.find(r"^fn apply_label_filters_for_alias\(")
+        labels = [z3.BitVec("label%d" % i, 32) for i in range(nlabels)]
+        alias = z3.BitVec("alias", 32)
+
+        def ident(ex, st, a, dst, callee):
+            v = a[0]
+            if isinstance(v, Ref):
+                v = deref_val(ex, st, v)
+            return [(v, [], None)]
+
+        def keep(ex, st, a, dst, callee):
+            return [(a[0], [], None)]
+
+        def m_into_iter(ex, st, a, dst, callee):
+            return [(ByteIt(a[0]), [], None)] if isinstance(a[0], Ref) else None
+
+        models = [(r"^<&\[std::string::String\] as IntoIterator>::into_iter$", m_into_iter),
+                  (r"^<std::slice::Iter<'_, std::string::String> as Iterator>::next$", m_byteit_next),
+                  (r"^<str as ToString>::to_string$", ident), (r"^<std::string::String as Clone>::clone$", ident),
+                  (r"Box::<.*>::new$", keep)] + GENERIC_MODELS
+        st = State()
+        st.env["$labels"] = PyVec(list(labels))
+        st.env["_1"], st.env["_2"], st.env["_3"] = Opaque("input-plan"), alias, Ref("$labels")
+        ex = Exec(fn, models, bound=nlabels + 2, mf=mf, max_paths=200)
+        paths = ex.run("bb0", st)
+        failed, n, sample = [], 0, []
+
+        def same(x, y, pc):
+            return z3.is_expr(x) and ex.entails(pc, x == y)
+
+        def binary(e):
+            if isinstance(e, Enum) and e.variant == "Binary":
+                b = e.fields[0]
+                if isinstance(b, Ref):
+                    b = deref_val(ex, cur[0], b)
+                if isinstance(b, Struct):
+                    f = b.fields
+                    op = f.get(bx["operator"])
+                    return (op.variant if isinstance(op, Enum) else None), f.get(bx["left"]), f.get(bx["right"])
+            return None, None, None
+
+        def conjuncts(e):
+            op, l, r = binary(e)
+            if op == "And":
+                return conjuncts(l) + conjuncts(r)
+            return [e]
+
+        def is_var(e, pc):
+            return isinstance(e, Enum) and e.variant == "Variable" and same(e.fields[0], alias, pc)
+
+        def guarded_label(e, pc):
+            """`alias IS NULL OR alias:label` -> the label term, else None"""
+            op, l, r = binary(e)
+            if op != "Or":
+                return None
+            op1, l1, _ = binary(l)
+            op2, l2, r2 = binary(r)
+            if op1 != "IsNull" or not is_var(l1, pc) or op2 != "HasLabel" or not is_var(l2, pc):
+                return None
+            if isinstance(r2, Enum) and r2.variant == "Literal" and isinstance(r2.fields[0], Enum) and r2.fields[0].variant == "String":
+                return r2.fields[0].fields[0]
+            return None
+
+        from .util import struct_fields
+        bx = {nm: i for i, nm in enumerate(struct_fields("nervusdb-query/src/ast.rs", "BinaryExpression"))}
+        cur = [None]
+        for p in paths:
+            if p.kind == "panic":
+                failed.append("the filter builder can panic on [%s]" % p.signature())
+                continue
+            if p.kind == "bound":
+                raise Unsupported("cut by the loop bound")
+            if p.kind != "return":
+                continue
+            n += 1
+            cur[0] = p.st
+            ret = p.ret
+            if len(sample) < 4:
+                sample.append(repr(ret)[:160])
+            if nlabels == 0:
+                if not (isinstance(ret, Opaque) and ret.name == "input-plan"):
+                    failed.append("without labels the plan is not returned unchanged")
+                continue
+            if not (isinstance(ret, Struct) and ret.name == "Filter" and len(ret.fields) == 2):
+                failed.append("the result is not a Filter over the input plan")
+                continue
+            vals = [deref_val(ex, p.st, v) if isinstance(v, Ref) else v for v in ret.fields.values()]
+            inps = [v for v in vals if isinstance(v, Opaque) and v.name == "input-plan"]
+            preds = [v for v in vals if isinstance(v, Enum)]
+            if len(inps) != 1 or len(preds) != 1:
+                failed.append("the Filter does not sit on the input plan")
+                continue
+            pred = preds[0]
+            got = [guarded_label(c, p.pc) for c in conjuncts(pred)]
+            if any(g is None for g in got):
+                failed.append("the predicate holds a conjunct that is not `alias IS NULL OR alias:label`")
+                continue
+            for i, l in enumerate(labels):
+                if not any(same(g, l, p.pc) for g in got):
+                    failed.append("label %d of %d handed to the filter builder has no HasLabel conjunct" % (i + 1, nlabels))
+        res = {"paths": n, "queries": ex.queries, "solver_time_s": round(ex.solver_time, 3), "sample": sample, "functions": [fn.header[:110]]}
+        if failed:
+            res.update({"status": "fail", "failed": sorted(set(failed)), "reason": "; ".join(sorted(set(failed)))[:400]})
+        else:
+            res["status"] = "pass"
+        return res
+    return run
+
+
+def _binding_kind_index():
+    import os
+    import re
+    from .. import mirdump  # noqa: F401
+    from ... import common as C
+    for rel in ("nervusdb-query/src/query_api.rs", "nervusdb-query/src/query_api/mod.rs"):
+        if os.path.exists(os.path.join(C.REPO, rel)) and re.search(r"\benum BindingKind\b", open(os.path.join(C.REPO, rel)).read()):
+            return dict(variant_index(rel, "BindingKind"))
+    raise Unsupported("enum BindingKind not found")
+
+
+TARGETS = [{"name": "c15_o2_q_execute_index_seek", "crate": "nervusdb-query", "run": run_seek}] + \
+          [{"name": "c15_o4_q_first_label_filter_%dlabels" % k, "crate": "nervusdb-query", "run": run_label_filter(k)} for k in (0, 1, 2, 3)] + \
+          [{"name": "c15_o5_q_label_filter_body_%dlabels" % k, "crate": "nervusdb-query", "run": run_label_filter_body(k)} for k in (0, 1, 2, 3)]
